@@ -49,6 +49,10 @@ def cmd_replay(args):
     core.bootstrap()
     with open(args.path, encoding="utf-8") as fh:
         scn = json.load(fh)
+    flags = scn.get("interpreter_flags") or []
+    if "-O" in flags and not sys.flags.optimize:
+        # the violation was found under `python -O`: replay it under the same interpreter flags
+        os.execve(sys.executable, [sys.executable, "-O"] + sys.argv, dict(os.environ, VERIF_NO_REEXEC="1", PYTHONHASHSEED="0"))
     mod = load_check(scn["property"])
     v = mod.execute(scn)
     if v is not None and v[0] == scn.get("clause", v[0]):
@@ -75,6 +79,27 @@ def cmd_digest(args):
     return 0
 
 
+def cmd_units(args):
+    """Run the given units in THIS interpreter (e.g. started with -O) and print minimised violations."""
+    from sim import runner  # pylint: disable=import-outside-toplevel
+
+    core.bootstrap()
+    mod = load_check(args.property)
+    units = json.loads(sys.stdin.read())
+    if hasattr(mod, "prepare"):
+        mod.prepare("selftest")
+    out, evaluations = [], 0
+    for u in units:
+        res = mod.run_unit(u)
+        evaluations += res.evaluations
+        for scn in res.violations[:2]:
+            small = runner.minimise_scenario(mod, scn)
+            small.pop("_original", None)
+            out.append(small)
+    print("UNITVIOLATIONS " + json.dumps({"violations": core.jsonable(out), "evaluations": evaluations}))
+    return 0
+
+
 def cmd_selftest(args):
     from sim import selftest  # pylint: disable=import-outside-toplevel
 
@@ -96,6 +121,9 @@ def main():
     d = sub.add_parser("digest")
     d.add_argument("property")
     d.set_defaults(fn=cmd_digest)
+    u = sub.add_parser("units")
+    u.add_argument("property")
+    u.set_defaults(fn=cmd_units)
     s = sub.add_parser("selftest")
     s.add_argument("--seeds", type=int, default=40)
     s.add_argument("--only", default=None)
